@@ -117,13 +117,14 @@ def exit_case(K):
                 setattr(lam, k, f)
         d = R.lift(zs_F[-1]) - R.lift(zs_y[-1])
         same = all((R.lift(a) - R.lift(zs_y[0])).coef == 0 for a in zs_y)
-        return {"last_step_within_tol": Holds((d <= TOL) & (d >= -TOL) & SB(z3.BoolVal(same)))}
+        last = R.lift(v[f"F{len(zs_F) - 1}"])       # F' = 1: the last Newton step is the last value of F
+        return {"last_step_within_tol": Holds((d <= TOL) & (d >= -TOL) & (last < TOL) & (last > -TOL) & SB(z3.BoolVal(same)))}
 
     def ref(env, v, out):
         return {"last_step_within_tol": None}
     return Case("lambert/exit", ins, run, ref, timeout=60, maxdepth=K + 4, maxpaths=4000,
                 desc=f"_lambert returns only after a Newton step |F/F'| <= 1e-8 (F arbitrary, F' = 1; at most {K} evaluations of F "
-                     "explored): the z used for the velocities is within tol of the last iterate; concretely the velocities, "
+                     "explored): that last step is smaller than tol in absolute value and the z used for the velocities is within tol of the last iterate; concretely the velocities, "
                      "propagated by an independent two-body propagator over the transfer time, arrive within 1 m on a panel of transfers")
 
 
